@@ -587,12 +587,12 @@ func init() {
 	// args: s    upper/lower case variants are treated alike (same outcome, same hashes up to case)
 	Oracle("c20.hashes.case", func(a []Val) (string, string) {
 		s := a[0].Str()
-		up, lo := asciiUpper(s), asciiLower(s)
+		up, lo := asciiUpperC20(s), asciiLower(s)
 		o, ou, ol := runHashes(s), runHashes(up), runHashes(lo)
 		if o.err != ou.err || o.err != ol.err {
 			return "C20/hash-case", fmt.Sprintf("%q: %v, upper %v, lower %v", s, o, ou, ol)
 		}
-		if !o.err && (asciiLower(o.lm) != ol.lm || asciiLower(o.nt) != ol.nt || asciiUpper(o.lm) != ou.lm || asciiUpper(o.nt) != ou.nt) {
+		if !o.err && (asciiLower(o.lm) != ol.lm || asciiLower(o.nt) != ol.nt || asciiUpperC20(o.lm) != ou.lm || asciiUpperC20(o.nt) != ou.nt) {
 			return "C20/hash-case", fmt.Sprintf("%q: %v, upper %v, lower %v", s, o, ou, ol)
 		}
 		return "", ""
@@ -646,7 +646,7 @@ func init() {
 	Gen("C20", genC20)
 }
 
-func asciiUpper(s string) string {
+func asciiUpperC20(s string) string {
 	b := []byte(s)
 	for i, c := range b {
 		if c >= 'a' && c <= 'z' {
@@ -1066,7 +1066,7 @@ func genC20Hashes(c *Ctx) {
 	}
 	// every white-space token on each side of every form
 	lm, nt := "AAD3B435B51404EEAAD3B435B51404EE", "31d6cfe0d16ae931b73c59d7e0c089c0"
-	for _, form := range []string{lm + ":" + nt, nt, ":" + nt, "", asciiLower(lm) + ":" + asciiUpper(nt)} {
+	for _, form := range []string{lm + ":" + nt, nt, ":" + nt, "", asciiLower(lm) + ":" + asciiUpperC20(nt)} {
 		run(form, "", "")
 		for _, sp := range spaces {
 			run(form, sp, "")
